@@ -71,6 +71,11 @@ def tlc_plans(chk, tier, start, dev=(), cfgs=None, faults=None, workers=4, emit=
 
 def _selftest_dev(chk, dev, start):
     r = tlc_plans(chk, "quick", start, dev=(dev,), cfgs="CfgsTiny", workers=1, emit=False, tag="_" + dev)
+    if dev == "WaitHoldsPipes":
+        # this deviation shows as a deadlock: the caller blocked forever in wait4 inside spawn
+        if "Deadlock reached" not in r.out:
+            raise core.ToolError("model self-test: deviation %s does not deadlock Spawn.tla:\n%s" % (dev, r.out[-1500:]))
+        return True
     if "AbsHolds" not in r.invariant_violated:
         raise core.ToolError("model self-test: deviation %s does not violate AbsHolds in Spawn.tla:\n%s" % (dev, r.out[-1500:]))
     return True
@@ -108,7 +113,7 @@ def model_selftest_jobs(chk, ex):
     """The named deviations of the pinned tree must be exhibited by TLC in the model (anti-vacuity
     of the invariants), and every probe state must be reachable."""
     futs = {}
-    for dev, start in (("ChildReturnsErr", True), ("ExecveNegErrno", True), ("EnvTestInverted", False)):
+    for dev, start in (("ChildReturnsErr", True), ("ExecveNegErrno", True), ("EnvTestInverted", False), ("WaitHoldsPipes", True)):
         futs[dev] = ex.submit(_selftest_dev, chk, dev, start)
     for probe in ("ProbeOk", "ProbeErrParent", "ProbeErrChild", "ProbeWaited"):
         futs[probe] = ex.submit(_selftest_probe, chk, probe)
@@ -172,21 +177,23 @@ def idval(setting, own):
 HELPERS = ["h7", "h7", "h0", "k9", "h7", "h3", "k15"]   # exit(7) / exit(0) / SIGKILL / exit(3) / SIGTERM
 
 
-def helper_name(idx):
-    return HELPERS[idx % len(HELPERS)]
+def helper_name(idx, stdin_pipe=False):
+    # ...r: the helper reads its stdin to the end before it dumps and exits
+    return HELPERS[idx % len(HELPERS)] + ("r" if stdin_pipe else "")
 
 
 def concretise(plan, rundir, variant, idx):
     cfg = plan["cfg"]
     start, env_alt = VARIANTS[variant][1], VARIANTS[variant][2]
-    binp = os.path.join(rundir, helper_name(idx) if cfg["prog"] == "ok" else "nobin")
+    binp = os.path.join(rundir, helper_name(idx, cfg["io"][0] == "pipe") if cfg["prog"] == "ok" else "nobin")
     cwd = {"none": None, "ok": os.path.join(rundir, "dirA"), "missing": os.path.join(rundir, "dirX")}[cfg["cwd"]]
     io = list(cfg["io"])
     names = ["stdin", "stdout", "stderr"]
     dplan = {"bin": binp, "args": ARGS[:cfg["nargs"]], "env": ENVS[:cfg["nenv"]] if cfg["nenv"] else None,
              "cwd": cwd, "uid": idval(cfg["uid"], os.getuid()), "gid": idval(cfg["gid"], os.getgid()),
              "pgroup": 0 if cfg["pg"] == "own" else None,
-             "pre_exec": list(cfg["pre"]), "open": [], "wait": "try" if idx % 10 == 2 else True}
+             "pre_exec": list(cfg["pre"]), "open": [], "wait": "try" if idx % 10 == 2 else True,
+             "bulk": idx % 2 == 1, "feed": ("feed%d" % idx) if cfg["io"][0] == "pipe" else None}
     for s in range(3):
         m = io[s]
         if m == "inherit":
@@ -201,7 +208,7 @@ def concretise(plan, rundir, variant, idx):
          "cwd": cwd if cwd else "unset", "pcwd": os.path.realpath(rundir),
          "uid": -1 if dplan["uid"] is None else dplan["uid"], "puid": os.getuid(),
          "gid": -1 if dplan["gid"] is None else dplan["gid"], "pgid": os.getgid(),
-         "pg": 0 if cfg["pg"] == "own" else -1, "io": io, "pre": list(cfg["pre"])}
+         "pg": 0 if cfg["pg"] == "own" else -1, "io": io, "pre": list(cfg["pre"]), "feed": dplan["feed"] or ""}
     dplan["envnone"] = False
     if variant == "noalloc" and idx % 2 == 1:
         # Environment::None chosen explicitly: the configured environment is the empty one
@@ -249,7 +256,7 @@ def execute(job):
         shutil.rmtree(rundir)
     os.makedirs(os.path.join(rundir, "dirA"))
     os.chmod(rundir, 0o777)      # the helper may run as another user and must be able to write its dump
-    helper = os.path.join(rundir, helper_name(job["idx"]))
+    helper = os.path.join(rundir, helper_name(job["idx"], job["plan"]["cfg"]["io"][0] == "pipe"))
     try:
         os.link(os.path.join(job["tools"], "spawn_helper"), helper)
     except OSError:
@@ -313,7 +320,12 @@ def probe_args(dplan):
         v = dplan[k]
         if v is not None:
             a.append("%s=%s" % (n, v if isinstance(v, str) else "fd:%d" % v["fd"]))
-    return a + ["pre=%d" % x for x in dplan["pre_exec"]] + (["wait=try"] if dplan["wait"] == "try" else [])
+    a += ["pre=%d" % x for x in dplan["pre_exec"]] + (["wait=try"] if dplan["wait"] == "try" else [])
+    if dplan.get("bulk") and "env" not in dplan.get("_noalloc", ""):
+        a.append("bulk=1")
+    if dplan.get("feed"):
+        a.append("feed=" + dplan["feed"])
+    return a
 
 
 NOFD = {"link": "", "acc": -1}
@@ -400,7 +412,7 @@ def assemble(idx, c, tr, info, dump):
                 if dump is not None and dump.get("pid") is not None:
                     out.append({"ev": "dump", "exe": dump["exe"], "argv": dump["argv"], "envp": dump["envp"], "cwd": dump["cwd"],
                                 "io": [fdent(dump["fds"], i) for i in range(3)], "uid": dump["uid"], "gid": dump["gid"],
-                                "pgrp": dump["pgrp"], "pid": dump["pid"]})
+                                "pgrp": dump["pgrp"], "pid": dump["pid"], "stdin_read": dump.get("stdin_read", "")})
                 else:
                     out.append({"ev": "anomaly", "what": "NoDump"})
         elif k == "exit":
@@ -466,7 +478,7 @@ def conformance(run, plan, verdict):
         diffs.append({"what": "returns", "model": mr, "real": rr})
     if plan["execd"] != verdict["execd"]:
         diffs.append({"what": "execd", "model": plan["execd"], "real": verdict["execd"]})
-    if helper_name(run["idx"]) == "h7" and plan["waitres"]["res"] == "ok" and verdict["waitres"]["res"] == "ok" \
+    if helper_name(run["idx"]).startswith("h7") and plan["waitres"]["res"] == "ok" and verdict["waitres"]["res"] == "ok" \
             and plan["waitres"]["status"] != verdict["waitres"]["status"]:
         diffs.append({"what": "wait status", "model": plan["waitres"], "real": verdict["waitres"]})
     return diffs
